@@ -41,12 +41,15 @@ OBLIGATIONS = [
     "Grog.C19.changes_cost_le",
     "Grog.C19.ancestor_set_cost_le",
     "Grog.C19.conflict_pass_cost_le",
+    "Grog.C19.select_cost_le_error",
+    "Grog.C19.select_ops_le",
+    "Grog.C19.failure_propagation_total_le",
     "Grog.C19.changes_filter_independent",
     "Grog.C19.visited_nodup",
 ]
 ASSUMPTIONS = [
     "cost of the real code is observed through allocation counts / wall time only (no hooks); thresholds: growth < 4, ladder/chain < 20 (applied when the deeper ladder needs >= 3000 allocations), absolute bounds 20 s / 30 s",
-    "the cost unit of the model is one loop iteration or one recursive call of the Go traversal",
+    "the cost unit of the model is one loop iteration or one recursive call of the Go traversal; for the selection a step also copies the dependency chain (<= |V| labels): select_ops_le gives the bound in elementary operations, (|V|+|E|)(1+|V|)",
 ]
 
 GROWTH_MAX = 4.0
